@@ -1,0 +1,3 @@
+pub fn main() {
+    println!("cargo::rustc-check-cfg=cfg(okane_verif)");
+}
